@@ -124,6 +124,45 @@ theorem iat_batch_validate_monotone (c c' : Ctx) (h : CtxLe c c')
     (ha : run c v_IATBatch_Validate = .accept) : run c' v_IATBatch_Validate = .accept :=
   record_validators_monotone "IATBatch.Validate" v_IATBatch_Validate (by decide +kernel) c c' h ha
 
+/-- helper: an accepting run returns nil -/
+theorem accept_ret (c : Ctx) (p : Prog) (ha : run c p = .accept) : (exec p c []).2 = .ret (.err none) := by
+  unfold run at ha
+  revert ha
+  cases (exec p c []).2 with
+  | ret v => cases v with
+    | err t => cases t <;> simp
+    | _ => simp
+  | _ => simp
+
+/-- C03: accepted file controls carry totals that fit their 12-digit fields -/
+theorem file_control_totals_in_field (c : Ctx) (d cr : Int) (hroot : c.recv = "")
+    (hd : lookup c.fields "TotalDebitEntryDollarAmountInFile" = .int d)
+    (hc : lookup c.fields "TotalCreditEntryDollarAmountInFile" = .int cr)
+    (ha : run c v_FileControl_Validate = .accept) : d ≤ 999999999999 ∧ cr ≤ 999999999999 := by
+  have hres := accept_ret c _ ha
+  have h1 := spine_sound c v_FileControl_Validate [] (Or.inl hres)
+    (.gt (.fld "TotalDebitEntryDollarAmountInFile") (.int 999999999999)) (by decide +kernel)
+  have h2 := spine_sound c v_FileControl_Validate [] (Or.inl hres)
+    (.gt (.fld "TotalCreditEntryDollarAmountInFile") (.int 999999999999)) (by decide +kernel)
+  simp [eval, hroot, joinPath, hd, hc, cmpVals] at h1 h2
+  omega
+
+/-- C02: an accepted file header carries the fixed NACHA constants (record size 094, blocking factor 10, format code 1)
+and a one-byte file ID modifier -/
+theorem file_header_constants (c : Ctx) (rs bf fc fm : Str) (hroot : c.recv = "")
+    (h1 : lookup c.fields "recordSize" = .str rs) (h2 : lookup c.fields "blockingFactor" = .str bf)
+    (h3 : lookup c.fields "formatCode" = .str fc) (h4 : lookup c.fields "FileIDModifier" = .str fm)
+    (ha : run c v_FileHeader_ValidateWith = .accept) :
+    rs = "094".toList ∧ bf = "10".toList ∧ fc = "1".toList ∧ byteLen fm = 1 := by
+  have hres := accept_ret c _ ha
+  have g1 := spine_sound c v_FileHeader_ValidateWith [] (Or.inl hres) (.ne (.fld "recordSize") (.str "094")) (by decide +kernel)
+  have g2 := spine_sound c v_FileHeader_ValidateWith [] (Or.inl hres) (.ne (.fld "blockingFactor") (.str "10")) (by decide +kernel)
+  have g3 := spine_sound c v_FileHeader_ValidateWith [] (Or.inl hres) (.ne (.fld "formatCode") (.str "1")) (by decide +kernel)
+  have g4 := spine_sound c v_FileHeader_ValidateWith [] (Or.inl hres)
+    (.ne (.call1 "len" (.fld "FileIDModifier")) (.int 1)) (by decide +kernel)
+  simp [eval, hroot, joinPath, h1, h2, h3, h4, cmpVals, builtin1] at g1 g2 g3 g4
+  exact ⟨g1, g2, g3, by exact_mod_cast g4⟩
+
 /-! ### the hypotheses are satisfiable, and the flags matter (non-vacuity) -/
 
 def sampleEntry (check : String) : Ctx where
